@@ -540,6 +540,13 @@ class _Ctx:
 
     def assign(self, target, value_tags: Tags, value_node, st, objs, stmt):
         if isinstance(target, ast.Name):
+            replaced_base = replaced_obj = None
+            if value_node is not None and isinstance(value_node, ast.Call) and u(value_node.func) in REPLACE_FUNCS and value_node.args:
+                # evaluated BEFORE the target is rebound: `data = dataclasses.replace(data)` copies the object, its columns are still the argument's arrays
+                replaced_base = self.prov(value_node.args[0], st, objs)
+                a0 = value_node.args[0]
+                replaced_obj = dict(objs[a0.id]["attrs"]) if isinstance(a0, ast.Name) and a0.id in objs else {}
+                replaced_obj.update({k.arg: self.prov(k.value, st, objs) for k in value_node.keywords if k.arg})
             st[target.id] = value_tags
             objs.pop(target.id, None)
             if isinstance(value_node, ast.Name) and value_node.id in self.same_obj:
@@ -555,9 +562,8 @@ class _Ctx:
                 self.kinds[target.id] = k
             else:
                 self.kinds.pop(target.id, None)
-            if value_node is not None and isinstance(value_node, ast.Call) and u(value_node.func) in REPLACE_FUNCS and value_node.args:
-                base = self.prov(value_node.args[0], st, objs)
-                objs[target.id] = {"base": base, "attrs": {k.arg: self.prov(k.value, st, objs) for k in value_node.keywords if k.arg}}
+            if replaced_base is not None:
+                objs[target.id] = {"base": replaced_base, "attrs": replaced_obj}
         elif isinstance(target, (ast.Tuple, ast.List)):
             vals = value_node.elts if isinstance(value_node, (ast.Tuple, ast.List)) and len(value_node.elts) == len(target.elts) else None
             for i, t in enumerate(target.elts):
